@@ -311,6 +311,9 @@ def verify_to_dict(cls, fn_ast, namespace, p: PPoint, levels, passed, timeout_ms
             return ex.call(Ob(raw.__func__), list(args), list(kw), node, st, ctx)
         if _inspect.isfunction(raw):
             return ex.call(Ob(raw), [recv] + list(args), list(kw), node, st, ctx)
+        if _inspect.ismethod(raw):
+            # a bound method stored on the class (e.g. strategy.serialize of a use_annotations strategy): not re-bound
+            return ex.call(Ob(raw), list(args), list(kw), node, st, ctx)
         return None
 
     hk = {"tm_attr": tm_attr, "method_call": self_method}
